@@ -240,7 +240,7 @@ def recorded_opcode_paths(dd, t1):
 
 
 def model_tree_expr(t1, t2, zip_, thr, ignore_private=True, skip="no_paths", excl="no_paths"):
-    return "sx_tree (run_diff hatom_simple (tbl_udiff %s) (tbl_ops %s) %s %s %s %s %s)" % (
+    return "sx_tree (run_diff hatom_deep (tbl_udiff %s) (tbl_ops %s) %s %s %s %s %s)" % (
         coq_udiff_table(udiff_table(t1, t2)), coq_ops_table(opcode_table(t1, t2)), skip, excl,
         coq_cfg(zip_, thr, ignore_private), V.to_coq(t1), V.to_coq(t2))
 
@@ -249,7 +249,9 @@ def in_model_guard(t1, t2):
     """inputs on which the simple injective stand-in for DeepHash on set members
     is faithful: no == atoms of different type among set members, no strings
     that collide with a type tag (finding K1)"""
-    return not (set_alias(t1, t2) or tag_unsafe(t1, t2))
+    # tag-like strings (finding K1) are inside the model since the set-member hash is
+    # HashModel.hash_atom; only the ==-keyed memo (K2) is not modelled
+    return not set_alias(t1, t2)
 
 
 def tree_case(t1, t2, zip_, thr, **kw):
@@ -304,7 +306,7 @@ def text_obs(res):
 
 
 def model_text_expr(t1, t2, zip_, thr, verbose, ignore_private=True, skip="no_paths", excl="no_paths"):
-    return "sx_text (text_view %d (fst (run_diff hatom_simple (tbl_udiff %s) (tbl_ops %s) %s %s %s %s %s)))" % (
+    return "sx_text (text_view %d (fst (run_diff hatom_deep (tbl_udiff %s) (tbl_ops %s) %s %s %s %s %s)))" % (
         verbose, coq_udiff_table(udiff_table(t1, t2)), coq_ops_table(opcode_table(t1, t2)), skip, excl,
         coq_cfg(zip_, thr, ignore_private), V.to_coq(t1), V.to_coq(t2))
 
